@@ -1093,7 +1093,7 @@ FNAME_STEPS = {
 }
 
 
-def rule_A_FNAME(ctx, repo, cache):
+def rule_A_FNAME(ctx, repo, cache, aliasing=False):
     """the name an entry is stored under is computed from the whole key by the steps in FNAME_STEPS or a *named* digest: no truncation or
     case folding (two long keys would share an entry), nothing process dependent (builtin hash is salted per interpreter: a later session
     would look for the entry under another name)."""
@@ -1143,5 +1143,18 @@ def rule_A_FNAME(ctx, repo, cache):
             ctx.ob('A-FNAME', '%s._fname path %d' % (lab, n), bad is None)
             if bad:
                 ctx.fail('A-FNAME', mq(ci, '_fname'), bad[:70], '%s._fname: %s' % (lab, bad), wh(ci, o.line or fi.node.lineno), render_path(o))
+            elif aliasing and sp is not None:
+                # the frozen steps themselves are not injective: reported (as known findings) where "distinct keys never alias" is claimed
+                names = [(t[1][2] if t[1][0] == 'attr' else t[1][1].split('.')[-1]) for t in sp if t[0] == 'call']
+                if 'replace' in names:
+                    ctx.ob('A-FNAME', '%s._fname injective substitution' % lab, False)
+                    ctx.fail('A-FNAME', mq(ci, '_fname'), "entry name substitutes '-' by '_'",
+                             "%s._fname replaces '-' by '_' in the entry name and the stored key is never compared on lookup: the keys 'a-b' and 'a_b' "
+                             'share one entry (the second store overwrites the first, a lookup of one returns the other)' % lab, wh(ci, fi.node.lineno), render_path(o))
+                if 'str' in names:
+                    ctx.ob('A-FNAME', '%s._fname type-preserving name' % lab, False)
+                    ctx.fail('A-FNAME', mq(ci, '_fname'), 'entry name is str(key)',
+                             '%s._fname names the entry str(key): the keys 1 and "1" (and 1.0 / "1.0", None / "None") share one entry' % lab,
+                             wh(ci, fi.node.lineno), render_path(o))
         if n == 0:
             raise AnalysisError('%s._fname has no return path' % lab)
